@@ -79,26 +79,31 @@ Lemma stateless_decl_local {S} (visit : S -> stmt -> S * list warning) :
   decl_local (stmt_on_decl (fun s : S => s) visit) (fun _ => True).
 Proof. intros H. apply stmt_on_decl_local. intros. apply visit_all_stateless. exact H. Qed.
 
+(* the exprWalker variant: functions with a body and every other GenDecl *)
+Lemma expr_on_decl_local {S} (visit : S -> stmt -> S * list warning) :
+  (forall s s' x, snd (visit s x) = snd (visit s' x)) ->
+  decl_local (expr_on_decl (fun s : S => s) visit) (fun _ => True).
+Proof.
+  intros H. split; [auto|]. intros s s' d _ _.
+  destruct d as [p ex r [b|] cs|p ns|p b]; simpl; auto; apply visit_all_stateless; exact H.
+Qed.
+
 (* ---- 5/6. dupCase, mapKey, typeSwitchVar ---- *)
 Lemma dc_local : decl_local dc_on_decl (fun _ => True).
-Proof. apply stateless_decl_local. intros s s' [ls e|p cs|p g hs|p ks|t]; reflexivity. Qed.
+Proof. apply stateless_decl_local. intros s s' [ls e|p cs|p g hs|p ws ks|t]; reflexivity. Qed.
 Lemma mk_local : decl_local mk_on_decl (fun _ => True).
-Proof. apply stateless_decl_local. intros s s' [ls e|p cs|p g hs|p ks|t]; reflexivity. Qed.
+Proof. apply expr_on_decl_local. intros s s' [ls e|p cs|p g hs|p ws ks|t]; reflexivity. Qed.
 Lemma tsv_local : decl_local tsv_on_decl (fun _ => True).
-Proof. apply stateless_decl_local. intros s s' [ls e|p cs|p g hs|p ks|t]; reflexivity. Qed.
+Proof. apply stateless_decl_local. intros s s' [ls e|p cs|p g hs|p ws ks|t]; reflexivity. Qed.
 
 (* ---- 3. ifElseChain: outputs depend on [visited] only, and EnterFunc resets it ---- *)
-Lemma iec_links_visited thr : forall ls eb a b, iec_visited a = iec_visited b ->
-  snd (iec_links thr a ls eb) = snd (iec_links thr b ls eb)
-  /\ iec_visited (fst (iec_links thr a ls eb)) = iec_visited (fst (iec_links thr b ls eb)).
+Lemma iec_head_visited thr : forall ls eb a b, iec_visited a = iec_visited b ->
+  snd (iec_head thr a ls eb) = snd (iec_head thr b ls eb)
+  /\ iec_visited (fst (iec_head thr a ls eb)) = iec_visited (fst (iec_head thr b ls eb)).
 Proof.
-  induction ls as [|cur rest IH]; simpl; intros eb a b E; auto.
-  rewrite E. destruct (memN (l_id cur) (iec_visited b)).
-  - specialize (IH eb a b E). destruct (iec_links thr a rest eb), (iec_links thr b rest eb). simpl in *.
-    destruct IH as [-> ->]. auto.
-  - destruct (count_ifelse cur rest eb (iec_visited b) 0) as [n vis].
-    set (s' := {| iec_cause := l_pos cur; iec_visited := vis |}).
-    specialize (IH eb s' s' eq_refl). destruct (iec_links thr s' rest eb). simpl. auto.
+  intros [|cur rest] eb a b E; simpl; auto.
+  rewrite E. destruct (memN (l_id cur) (iec_visited b)); simpl; auto.
+  all: try (destruct (count_ifelse cur rest eb (iec_visited b) 0) as [n vis]; simpl; auto).
 Qed.
 
 Lemma iec_visit_all_visited thr : forall b a c, iec_visited a = iec_visited c ->
@@ -107,7 +112,7 @@ Proof.
   induction b as [|x r IH]; simpl; intros a c E; auto.
   assert (H : snd (iec_visit thr a x) = snd (iec_visit thr c x)
               /\ iec_visited (fst (iec_visit thr a x)) = iec_visited (fst (iec_visit thr c x))).
-  { destruct x; simpl; auto. apply iec_links_visited. exact E. }
+  { destruct x; simpl; auto. apply iec_head_visited. exact E. }
   destruct (iec_visit thr a x) as [a1 w1], (iec_visit thr c x) as [c1 w1']. simpl in H. destruct H as [-> H].
   specialize (IH a1 c1 H). destruct (visit_all (iec_visit thr) a1 r), (visit_all (iec_visit thr) c1 r). simpl in *. congruence.
 Qed.
@@ -116,18 +121,14 @@ Lemma iec_local thr : decl_local (iec_on_decl thr) (fun _ => True).
 Proof. apply stmt_on_decl_local. intros. apply iec_visit_all_visited. reflexivity. Qed.
 
 (* ---- 4. typeAssertChain ---- *)
-Lemma tac_links_visited : forall ls a b, tac_visited a = tac_visited b ->
-  snd (tac_links a ls) = snd (tac_links b ls)
-  /\ tac_visited (fst (tac_links a ls)) = tac_visited (fst (tac_links b ls)).
+Lemma tac_head_visited : forall ls a b, tac_visited a = tac_visited b ->
+  snd (tac_head a ls) = snd (tac_head b ls)
+  /\ tac_visited (fst (tac_head a ls)) = tac_visited (fst (tac_head b ls)).
 Proof.
-  induction ls as [|cur rest IH]; simpl; intros a b E; auto.
-  destruct (l_assert cur) as [[x ty]|].
-  - rewrite E. destruct (memN (l_id cur) (tac_visited b) || negb (l_init cur)).
-    + specialize (IH a b E). destruct (tac_links a rest), (tac_links b rest). simpl in *. destruct IH as [-> ->]. auto.
-    + destruct (count_asserts x rest (tac_visited b) [ty] 1) as [[n vis] tys].
-      set (s' := {| tac_cause := l_pos cur; tac_visited := vis; tac_types := tys |}).
-      specialize (IH s' s' eq_refl). destruct (tac_links s' rest). simpl. auto.
-  - specialize (IH a b E). destruct (tac_links a rest), (tac_links b rest). simpl in *. destruct IH as [-> ->]. auto.
+  intros [|cur rest] a b E; simpl; auto.
+  rewrite E. destruct (memN (l_id cur) (tac_visited b) || negb (l_init cur)); simpl; auto.
+  destruct (l_assert cur) as [[x ty]|]; simpl; auto.
+  all: try (destruct (count_asserts x rest (tac_visited b) [ty] 1) as [[n vis] tys]; simpl; auto).
 Qed.
 
 Lemma tac_visit_all_visited : forall b a c, tac_visited a = tac_visited c ->
@@ -136,7 +137,7 @@ Proof.
   induction b as [|x r IH]; simpl; intros a c E; auto.
   assert (H : snd (tac_visit a x) = snd (tac_visit c x)
               /\ tac_visited (fst (tac_visit a x)) = tac_visited (fst (tac_visit c x))).
-  { destruct x; simpl; auto. apply tac_links_visited. exact E. }
+  { destruct x; simpl; auto. apply tac_head_visited. exact E. }
   destruct (tac_visit a x) as [a1 w1], (tac_visit c x) as [c1 w1']. simpl in H. destruct H as [-> H].
   specialize (IH a1 c1 H). destruct (visit_all tac_visit a1 r), (visit_all tac_visit c1 r). simpl in *. congruence.
 Qed.
@@ -146,7 +147,7 @@ Proof. apply stmt_on_decl_local. intros. apply tac_visit_all_visited. reflexivit
 
 (* ---- 8. commentedOutCode ---- *)
 Lemma coc_local : decl_local coc_on_decl (fun _ => True).
-Proof. split; [auto|]. intros s s' [p ex r [b|] cs|p ns|p] _ _; reflexivity. Qed.
+Proof. split; [auto|]. intros s s' [p ex r [b|] cs|p ns|p b] _ _; reflexivity. Qed.
 
 (* ---- 7. typeDefFirst (file level) ---- *)
 Lemma tdf_init_irrelevant : forall s s' c f, snd (tdf_run c s f) = snd (tdf_run c s' f).
@@ -199,7 +200,7 @@ Qed.
 Lemma sk_local : decl_local sk_on_decl (fun fl => fl = false).
 Proof.
   split.
-  - intros s [p ex r [b|] cs|p ns|p] Hs; simpl; auto. apply sk_visit_all_flag. exact Hs.
+  - intros s [p ex r [b|] cs|p ns|p b'] Hs; simpl; auto. apply sk_visit_all_flag. exact Hs.
   - intros s s' d -> ->. reflexivity.
 Qed.
 
@@ -217,7 +218,7 @@ Lemma dc_noclear_history_dependent :
   result_after [] run [(tt, f)] tt f <> result_fresh [] run tt f.
 Proof. vm_compute. discriminate. Qed.
 
-(* ---- position equivariance (C13) for the stateless statement visitors ---- *)
+(* ---- position equivariance (C13) ---- *)
 Lemma dup_scan_shift text k : forall cs set,
   dup_scan text set (map (shift_pk k) cs) = (fst (dup_scan text set cs), map (shift_w k) (snd (dup_scan text set cs))).
 Proof.
@@ -227,41 +228,277 @@ Proof.
   - apply IH.
 Qed.
 
-Lemma visit_all_shift {S} (visit : S -> stmt -> S * list warning) k :
-  (forall s x, visit s (shift_stmt k x) = (fst (visit s x), map (shift_w k) (snd (visit s x)))) ->
-  forall b s, visit_all visit s (map (shift_stmt k) b) = (fst (visit_all visit s b), map (shift_w k) (snd (visit_all visit s b))).
+(* generic: a visitor that is equivariant per item up to a relation R between scratch states (R = what the outputs depend on) *)
+Section ShiftRel.
+  Context {S : Type}.
+  Variable visit : S -> stmt -> S * list warning.
+  Variable R : S -> S -> Prop.
+  Variable k : N.
+  Hypothesis step : forall a c x, R a c ->
+    snd (visit a (shift_stmt k x)) = map (shift_w k) (snd (visit c x)) /\ R (fst (visit a (shift_stmt k x))) (fst (visit c x)).
+
+  Lemma visit_all_shift_rel : forall b a c, R a c ->
+    snd (visit_all visit a (map (shift_stmt k) b)) = map (shift_w k) (snd (visit_all visit c b))
+    /\ R (fst (visit_all visit a (map (shift_stmt k) b))) (fst (visit_all visit c b)).
+  Proof.
+    induction b as [|x r IH]; simpl; intros a c HR; [split; [reflexivity|exact HR]|].
+    destruct (step a c x HR) as [H1 H2].
+    destruct (visit a (shift_stmt k x)) as [a1 w1], (visit c x) as [c1 w1']. simpl in H1, H2. subst w1.
+    destruct (IH a1 c1 H2) as [H3 H4].
+    destruct (visit_all visit a1 (map (shift_stmt k) r)), (visit_all visit c1 r). simpl in *. subst.
+    rewrite map_app. split; [reflexivity|exact H4].
+  Qed.
+End ShiftRel.
+
+Lemma stmt_on_decl_equivariant_rel {S} (enter : S -> S) (visit : S -> stmt -> S * list warning) (R : S -> S -> Prop) :
+  (forall s, R (enter s) (enter s)) ->
+  (forall k a c x, R a c ->
+    snd (visit a (shift_stmt k x)) = map (shift_w k) (snd (visit c x)) /\ R (fst (visit a (shift_stmt k x))) (fst (visit c x))) ->
+  equivariant (stmt_on_decl enter visit) shift_decl.
 Proof.
-  intros H. induction b as [|x r IH]; simpl; intros s; auto.
-  rewrite H. destruct (visit s x) as [s1 w1]. simpl. rewrite IH. destruct (visit_all visit s1 r). simpl.
-  rewrite map_app. reflexivity.
+  intros HR H k s [p ex r [b|] cs|p ns|p b']; simpl; auto.
+  exact (proj1 (visit_all_shift_rel visit R k (H k) b (enter s) (enter s) (HR s))).
 Qed.
 
-Lemma stmt_on_decl_equivariant {S} (visit : S -> stmt -> S * list warning) :
-  (forall k s x, visit s (shift_stmt k x) = (fst (visit s x), map (shift_w k) (snd (visit s x)))) ->
-  equivariant (stmt_on_decl (fun s : S => s) visit) shift_decl.
+Lemma expr_on_decl_equivariant_rel {S} (visit : S -> stmt -> S * list warning) (R : S -> S -> Prop) :
+  (forall s, R s s) ->
+  (forall k a c x, R a c ->
+    snd (visit a (shift_stmt k x)) = map (shift_w k) (snd (visit c x)) /\ R (fst (visit a (shift_stmt k x))) (fst (visit c x))) ->
+  equivariant (expr_on_decl (fun s : S => s) visit) shift_decl.
 Proof.
-  intros H k s [p ex r [b|] cs|p ns|p]; simpl; auto.
-  rewrite (visit_all_shift visit k (H k)). reflexivity.
+  intros HR H k s [p ex r [b|] cs|p ns|p b']; simpl; auto.
+  - exact (proj1 (visit_all_shift_rel visit R k (H k) b s s (HR s))).
+  - exact (proj1 (visit_all_shift_rel visit R k (H k) b' s s (HR s))).
 Qed.
 
 Lemma dc_equivariant : equivariant dc_on_decl shift_decl.
 Proof.
-  apply stmt_on_decl_equivariant. intros k s [ls e|p cs|p g hs|p ks|t]; simpl; auto.
-  rewrite dup_scan_shift. reflexivity.
+  apply (stmt_on_decl_equivariant_rel _ _ (fun _ _ => True)); auto.
+  intros k a c [ls e|p cs|p g hs|p ws ks|t] _; simpl; auto.
+  rewrite dup_scan_shift. auto.
 Qed.
 Lemma mk_equivariant : equivariant mk_on_decl shift_decl.
 Proof.
-  apply stmt_on_decl_equivariant. intros k s [ls e|p cs|p g hs|p ks|t]; simpl; auto.
-  rewrite dup_scan_shift. reflexivity.
+  apply (expr_on_decl_equivariant_rel _ (fun _ _ => True)); auto.
+  intros k a c [ls e|p cs|p g hs|p ws ks|t] _; simpl; auto.
+  rewrite dup_scan_shift. destruct (dup_scan "suspicious duplicate key" [] ks) as [s1 w1]. simpl.
+  rewrite map_app. destruct ws; simpl; auto.
 Qed.
 Lemma tsv_equivariant : equivariant tsv_on_decl shift_decl.
 Proof.
-  apply stmt_on_decl_equivariant. intros k s [ls e|p cs|p g hs|p ks|t]; simpl; auto.
-  destruct g; simpl; auto. destruct (0 <? count_true hs)%N; reflexivity.
+  apply (stmt_on_decl_equivariant_rel _ _ (fun _ _ => True)); auto.
+  intros k a c [ls e|p cs|p g hs|p ws ks|t] _; simpl; auto.
+  destruct g; simpl; auto. destruct (0 <? count_true hs)%N; simpl; auto.
 Qed.
 Lemma coc_equivariant : equivariant coc_on_decl shift_decl.
 Proof.
-  intros k s [p ex r [b|] cs|p ns|p]; simpl; auto.
+  intros k s [p ex r [b|] cs|p ns|p b']; simpl; auto.
   induction cs as [|c cr IH]; simpl; auto.
   destruct (c_code c && negb (ex && c_output c)); simpl; rewrite IH; reflexivity.
 Qed.
+
+(* ifElseChain / typeAssertChain: the chain walk reads only l_id, l_init, l_assert, which a shift leaves alone *)
+Lemma count_ifelse_shift k eb : forall rest cur vis n,
+  count_ifelse (shift_link k cur) (map (shift_link k) rest) eb vis n = count_ifelse cur rest eb vis n.
+Proof.
+  induction rest as [|e r IH]; intros cur vis n; simpl; destruct (l_init cur); auto.
+  all: try apply IH.
+Qed.
+
+Lemma iec_equivariant thr : equivariant (iec_on_decl thr) shift_decl.
+Proof.
+  apply (stmt_on_decl_equivariant_rel _ _ (fun a c => iec_visited a = iec_visited c)); auto.
+  intros k a c [ls e|p cs|p g hs|p ws ks|t] E; simpl; auto.
+  destruct ls as [|cur rest]; simpl; auto.
+  rewrite E. destruct (memN (l_id cur) (iec_visited c)); simpl; auto.
+  change (count_ifelse {| l_id := l_id cur; l_pos := (l_pos cur + k)%N; l_init := l_init cur; l_assert := l_assert cur |})
+    with (count_ifelse (shift_link k cur)).
+  rewrite count_ifelse_shift. destruct (count_ifelse cur rest e (iec_visited c) 0) as [n vis]. simpl.
+  destruct (thr <=? n)%N; auto.
+Qed.
+
+Lemma count_asserts_shift k x : forall rest vis tys n,
+  count_asserts x (map (shift_link k) rest) vis tys n = count_asserts x rest vis tys n.
+Proof.
+  induction rest as [|e r IH]; intros vis tys n; simpl; auto.
+  destruct (l_assert e) as [[x' ty]|]; auto.
+  destruct (memN ty tys); auto. destruct (negb (x =? x')%N); auto.
+Qed.
+
+Lemma tac_equivariant : equivariant tac_on_decl shift_decl.
+Proof.
+  apply (stmt_on_decl_equivariant_rel _ _ (fun a c => tac_visited a = tac_visited c)); auto.
+  intros k a c [ls e|p cs|p g hs|p ws ks|t] E; simpl; auto.
+  destruct ls as [|cur rest]; simpl; auto.
+  rewrite E. destruct (memN (l_id cur) (tac_visited c) || negb (l_init cur)); simpl; auto.
+  destruct (l_assert cur) as [[x ty]|]; simpl; auto.
+  rewrite count_asserts_shift. destruct (count_asserts x rest (tac_visited c) [ty] 1) as [[n vis] tys]. simpl.
+  destruct (2 <=? n)%N; auto.
+Qed.
+
+(* SkipChilds protocol: a shifted tree is walked the same way *)
+Lemma walk_kids_shift k : forall l,
+  Forall (fun t => forall fl, walk_tree fl (shift_tree k t) = (fst (walk_tree fl t), map (shift_w k) (snd (walk_tree fl t)))) l ->
+  forall fl, walk_kids walk_tree fl (map (shift_tree k) l) = (fst (walk_kids walk_tree fl l), map (shift_w k) (snd (walk_kids walk_tree fl l))).
+Proof.
+  induction l as [|t r IH]; simpl; intros HF fl; auto.
+  inversion HF as [|? ? Ht Hr]; subst. rewrite Ht. destruct (walk_tree fl t) as [f1 w1]. simpl.
+  rewrite (IH Hr). destruct (walk_kids walk_tree f1 r) as [f2 w2]. simpl. rewrite map_app. reflexivity.
+Qed.
+
+Lemma walk_tree_shift k : forall t fl,
+  walk_tree fl (shift_tree k t) = (fst (walk_tree fl t), map (shift_w k) (snd (walk_tree fl t))).
+Proof.
+  induction t as [p h ks IH] using tree_ind'. intros fl. simpl.
+  destruct (fl || h).
+  - destruct h; reflexivity.
+  - rewrite (walk_kids_shift k ks IH). destruct (walk_kids walk_tree false ks) as [f w]. simpl.
+    rewrite map_app. destruct h; reflexivity.
+Qed.
+
+Lemma sk_equivariant : equivariant sk_on_decl shift_decl.
+Proof.
+  apply (stmt_on_decl_equivariant_rel _ _ eq); auto.
+  intros k a c [ls e|p cs|p g hs|p ws ks|t] ->; simpl; auto.
+  rewrite walk_tree_shift. auto.
+Qed.
+
+(* typeDefFirst is file-level (exempt from the per-declaration laws), but a UNIFORM shift of the whole file still only shifts *)
+Lemma tdf_decl_shift k : forall tr d,
+  tdf_decl tr (shift_decl k d) = (fst (tdf_decl tr d), map (shift_w k) (snd (tdf_decl tr d))).
+Proof.
+  intros tr [p ex [r|] b cs|p ns|p b']; simpl; auto.
+  f_equal. induction ns as [|n r IH]; simpl; auto. rewrite map_app, IH. destruct (mem n tr); reflexivity.
+Qed.
+
+Lemma tdf_walk_shift k : forall f tr,
+  walk tdf_decl tr (map (shift_decl k) f) = (fst (walk tdf_decl tr f), map (shift_w k) (snd (walk tdf_decl tr f))).
+Proof.
+  induction f as [|d r IH]; simpl; intros tr; auto.
+  rewrite tdf_decl_shift. destruct (tdf_decl tr d) as [t1 w1]. simpl.
+  rewrite IH. destruct (walk tdf_decl t1 r). simpl. rewrite map_app. reflexivity.
+Qed.
+
+Lemma tdf_shift : forall k c s f, snd (tdf_run c s (map (shift_decl k) f)) = map (shift_w k) (snd (tdf_run c s f)).
+Proof. intros k c s [|d r]; [reflexivity|]. unfold tdf_run. change (map (shift_decl k) (d :: r)) with (shift_decl k d :: map (shift_decl k) r).
+  change (shift_decl k d :: map (shift_decl k) r) with (map (shift_decl k) (d :: r)). rewrite tdf_walk_shift. reflexivity. Qed.
+
+(* ---- per-visit form of history irrelevance: every Check of a long-lived instance returns what a new instance returns ---- *)
+Section Visits.
+  Context {C F S : Type}.
+  Variable scratch0 : S.
+  Variable run : C -> S -> F -> S * list warning.
+  Variable I : S -> Prop.
+  Hypothesis I0 : I scratch0.
+  Hypothesis Ipres : forall c s f, I s -> I (fst (run c s f)).
+  Hypothesis irr : forall c s s' f, I s -> I s' -> snd (run c s f) = snd (run c s' f).
+
+  Lemma visits_from_fresh : forall h s, I s ->
+    visits_from run s h = map (fun cf => result_fresh scratch0 run (fst cf) (snd cf)) h.
+  Proof.
+    induction h as [|cf r IH]; simpl; intros s Hs; auto.
+    pose proof (Ipres (fst cf) s (snd cf) Hs) as H1.
+    pose proof (irr (fst cf) s scratch0 (snd cf) Hs I0) as H2.
+    destruct (run (fst cf) s (snd cf)) as [s1 w]. simpl in *. rewrite (IH s1 H1). unfold result_fresh. rewrite H2. reflexivity.
+  Qed.
+
+  Lemma visits_fresh : forall h, visits scratch0 run h = map (fun cf => result_fresh scratch0 run (fst cf) (snd cf)) h.
+  Proof. intros. apply visits_from_fresh. exact I0. Qed.
+End Visits.
+
+(* a walk-file function that is init-irrelevant everywhere, behind the linter.Checker wrapper *)
+Lemma checker_visits_fresh {C F S} (wf : C -> S -> F -> S * list warning) :
+  (forall c s s' f, snd (wf c s f) = snd (wf c s' f)) ->
+  forall bs0 h, visits bs0 (check wf) h = map (fun cf => result_fresh bs0 (check wf) (fst cf) (snd cf)) h.
+Proof.
+  intros H bs0 h.
+  exact (visits_fresh bs0 (check wf) (fun _ => True) I (fun _ _ _ _ => I)
+           (fun c bs bs' f _ _ => check_init_irrelevant wf H c bs bs' f) h).
+Qed.
+
+(* ---- the evaluated laws are sound: a prediction assembled from the ORIGINAL declarations is what the walker
+   computes on the transformed file (decl_local + equivariant), for every tagging that passes the decl_eqb checks ---- *)
+Lemma opt_eqb_eq {A} (e : A -> A -> bool) : (forall x y, e x y = true -> x = y) -> forall a b, opt_eqb e a b = true -> a = b.
+Proof. intros H [x|] [y|]; simpl; intros E; try discriminate; auto. f_equal. auto. Qed.
+Lemma list_eqb_sound {A} (e : A -> A -> bool) : (forall x y, e x y = true -> x = y) -> forall a b, list_eqb e a b = true -> a = b.
+Proof.
+  intros H. induction a as [|x a IH]; intros [|y b]; simpl; intros E; try discriminate; auto.
+  apply andb_true_iff in E. destruct E as [E1 E2]. f_equal; auto.
+Qed.
+Lemma pk_eqb_sound : forall a b, pk_eqb a b = true -> a = b.
+Proof. intros [a1 a2] [b1 b2]. unfold pk_eqb. simpl. rewrite andb_true_iff, !N.eqb_eq. intros [-> ->]. reflexivity. Qed.
+Lemma beqb_sound : forall a b, Bool.eqb a b = true -> a = b.
+Proof. intros a b. apply Bool.eqb_prop. Qed.
+Lemma neqb_sound : forall a b, N.eqb a b = true -> a = b.
+Proof. intros a b. apply N.eqb_eq. Qed.
+Lemma seqb_sound : forall a b, String.eqb a b = true -> a = b.
+Proof. intros a b. apply String.eqb_eq. Qed.
+Lemma link_eqb_sound : forall a b, link_eqb a b = true -> a = b.
+Proof.
+  intros [i p n a] [i' p' n' a']. unfold link_eqb. simpl. rewrite !andb_true_iff, !N.eqb_eq.
+  intros [[[-> ->] H1] H2]. apply beqb_sound in H1. apply (opt_eqb_eq _ pk_eqb_sound) in H2. subst. reflexivity.
+Qed.
+Lemma stmt_eqb_sound : forall a b, stmt_eqb a b = true -> a = b.
+Proof.
+  intros [l e|p c|p g h|p w ks|t] [l' e'|p' c'|p' g' h'|p' w' ks'|t']; simpl; try discriminate; rewrite ?andb_true_iff.
+  - intros [H1 H2]. apply (list_eqb_sound _ link_eqb_sound) in H1. apply beqb_sound in H2. subst. reflexivity.
+  - intros [H1 H2]. apply neqb_sound in H1. apply (list_eqb_sound _ pk_eqb_sound) in H2. subst. reflexivity.
+  - intros [[H1 H2] H3]. apply neqb_sound in H1. apply beqb_sound in H2. apply (list_eqb_sound _ beqb_sound) in H3. subst. reflexivity.
+  - intros [[H1 H2] H3]. apply neqb_sound in H1. apply (opt_eqb_eq _ neqb_sound) in H2. apply (list_eqb_sound _ pk_eqb_sound) in H3. subst. reflexivity.
+Qed.
+Lemma comment_eqb_sound : forall a b, comment_eqb a b = true -> a = b.
+Proof.
+  intros [p c o] [p' c' o']. unfold comment_eqb. simpl. rewrite !andb_true_iff.
+  intros [[H1 H2] H3]. apply neqb_sound in H1. apply beqb_sound in H2. apply beqb_sound in H3. subst. reflexivity.
+Qed.
+Lemma decl_eqb_sound : forall a b, decl_eqb a b = true -> a = b.
+Proof.
+  intros [p ex r bd cs|p ns|p b] [p' ex' r' bd' cs'|p' ns'|p' b']; simpl; try discriminate; rewrite ?andb_true_iff.
+  - intros [[[[H1 H2] H3] H4] H5]. apply neqb_sound in H1. apply beqb_sound in H2. apply (opt_eqb_eq _ seqb_sound) in H3.
+    apply (opt_eqb_eq _ (list_eqb_sound _ stmt_eqb_sound)) in H4. apply (list_eqb_sound _ comment_eqb_sound) in H5. subst. reflexivity.
+  - intros [H1 H2]. apply neqb_sound in H1. apply (list_eqb_sound _ seqb_sound) in H2. subst. reflexivity.
+  - intros [H1 H2]. apply neqb_sound in H1. apply (list_eqb_sound _ stmt_eqb_sound) in H2. subst. reflexivity.
+Qed.
+
+Lemma unshift_shift k : forall ws, map (unshift_w k) (map (shift_w k) ws) = ws.
+Proof.
+  induction ws as [|[p t] r IH]; simpl; auto. rewrite IH. unfold unshift_w, shift_w. simpl.
+  replace (p + k - k)%N with p by lia. reflexivity.
+Qed.
+
+Section PredictSound.
+  Context {S : Type}.
+  Variable on_decl : S -> decl -> S * list warning.
+  Variable I : S -> Prop.
+  Hypothesis L : decl_local on_decl I.
+  Hypothesis E : equivariant on_decl shift_decl.
+  Variable s0 : S.
+  Hypothesis I0 : I s0.
+
+  Lemma predict_one_sound ds d' t ws : predict_one on_decl s0 ds d' t = Some ws -> snd (on_decl s0 d') = ws.
+  Proof.
+    unfold predict_one. destruct t as [i|]; [|intros H; injection H; auto].
+    destruct (nth_error ds (N.to_nat i)) as [d|]; [|discriminate].
+    destruct (decl_pos d <=? decl_pos d')%N.
+    - remember (decl_pos d' - decl_pos d)%N as k eqn:Hk. clear Hk.
+      destruct (decl_eqb (shift_decl k d) d') eqn:Q; [|discriminate].
+      apply decl_eqb_sound in Q. intros H. injection H as <-. rewrite <- Q. apply E.
+    - remember (decl_pos d - decl_pos d')%N as k eqn:Hk. clear Hk.
+      destruct (decl_eqb (shift_decl k d') d) eqn:Q; [|discriminate].
+      apply decl_eqb_sound in Q. intros H. injection H as <-. rewrite <- Q. rewrite E. symmetry. apply unshift_shift.
+  Qed.
+
+  Lemma predict_flat : forall ds ds' tags ws, predict on_decl s0 ds ds' tags = Some ws ->
+    flat_map (fun d => snd (on_decl s0 d)) ds' = ws.
+  Proof.
+    intros ds. induction ds' as [|d' r' IH]; intros [|t rt] ws; simpl; try discriminate.
+    - intros H. injection H; auto.
+    - destruct (predict_one on_decl s0 ds d' t) as [a|] eqn:P1; [|discriminate].
+      destruct (predict on_decl s0 ds r' rt) as [b|] eqn:P2; [|discriminate].
+      intros H. injection H as <-.
+      apply predict_one_sound in P1. rewrite (IH rt b P2), P1. reflexivity.
+  Qed.
+
+  Lemma predict_sound : forall ds ds' tags ws, predict on_decl s0 ds ds' tags = Some ws -> snd (walk on_decl s0 ds') = ws.
+  Proof. intros ds ds' tags ws H. rewrite (walk_flat on_decl I L s0 I0 ds' s0 I0). exact (predict_flat ds ds' tags ws H). Qed.
+End PredictSound.
